@@ -5,6 +5,8 @@ package main
 
 import (
 	"fmt"
+	"os"
+	"path/filepath"
 
 	"verifh/cases"
 	"verifh/model"
@@ -89,5 +91,56 @@ func init() {
 			Infra("selftest failed")
 		}
 		fmt.Println("SELFTEST OK: recorded trace accepted; corrupted counter and missing event rejected")
+
+		// ProtoTrace: a recorded run of the binary under the logging git is accepted; without one
+		// invocation, with a changed outcome, a changed exit status or a child without
+		// --no-replace-objects it is rejected
+		e := &c10Env{c: c, env: env, fake: buildFakeGit(c)}
+		dir, _ := os.MkdirTemp(c.Scratch, "selfrepo-")
+		repoDir := filepath.Join(dir, "r")
+		if _, err := materialiseCase(repoDir, &sc); err != nil {
+			Infra("selftest repository: %v", err)
+		}
+		e.home = dir
+		args := []string{"--json", "--no-progress", "refs/heads/main"}
+		fr := e.runUnderFake("proto-good", repoDir, args, nil, nil)
+		cloneEv := func() []map[string]interface{} {
+			out := make([]map[string]interface{}, len(fr.Events))
+			for i, ev := range fr.Events {
+				m := map[string]interface{}{}
+				for k, v := range ev {
+					m[k] = v
+				}
+				out[i] = m
+			}
+			return out
+		}
+		mk := func(id string, evs []map[string]interface{}, exit int) protoRun {
+			return protoRun{ID: id, Args: args, Events: evs, Exit: exit, Stdout: fr.Stdout}
+		}
+		dropped := cloneEv()
+		for i, ev := range dropped {
+			if ev["c"] == "refs" {
+				dropped = append(dropped[:i], dropped[i+1:]...)
+				break
+			}
+		}
+		failedEv := cloneEv()
+		for _, ev := range failedEv {
+			if ev["c"] == "batch" {
+				ev["o"] = "fail"
+			}
+		}
+		noflag := cloneEv()
+		noflag[len(noflag)-1]["norepl"] = false
+		extra := append(cloneEv(), map[string]interface{}{"c": "other:gc", "o": "ok", "gd": fr.Events[1]["gd"], "norepl": true, "graft": "/dev/null"})
+		acc, _ := validateProto(c, "selftest", []protoRun{mk("proto-good", fr.Events, fr.Exit), mk("proto-dropped", dropped, fr.Exit),
+			mk("proto-failed-batch", failedEv, fr.Exit), mk("proto-exit1", cloneEv(), 1), mk("proto-noflag", noflag, fr.Exit), mk("proto-extra", extra, fr.Exit)})
+		c.Note("ProtoTrace: accepted %v", acc)
+		if !acc["proto-good"] || len(acc) != 1 {
+			fmt.Println("SELFTEST FAILED: ProtoTrace does not discriminate")
+			Infra("selftest failed")
+		}
+		fmt.Println("SELFTEST OK: recorded run accepted by ProtoTrace; missing invocation, failed command with a report, wrong exit status, missing --no-replace-objects and an unknown git command rejected")
 	}
 }
